@@ -92,6 +92,11 @@ def run_case(rs, ctx):
     binz = gen.pick(rs, [None, None, "thr_inside"]) if l == "ts" and "nonbinary" not in name else None
     cfg = gen.gen_cfg(rs, l, p, labels=gen.pick(rs, ["int", "str", "float"]), n_arms=int(rs.integers(2, 5)), binarizer=binz)
     nf = int(gen.pick(rs, [2, 3]))
+    if name in ("partial_fit:singular_l2_zero", "fit:singular_l2_zero") and cfg["lp"]["kind"] in ("lingreedy", "linucb"):
+        cfg["lp"]["l2"], cfg["lp"]["scale"] = 0.0, False  # legal (validated as l2_lambda >= 0): no regularisation
+        pos = "after_arm_change"
+    if name == "partial_fit:fewer_rows_than_clusters_first_call":
+        pos = "before_fit"
     sh = gen.Shadow(cfg, nf)
     if name.endswith("before_fit"):
         pos = "before_fit"
@@ -101,7 +106,7 @@ def run_case(rs, ctx):
     if pos == "before_fit":
         hist += gen.gen_ops(rs, cfg, sh, int(rs.integers(0, 3)), ["add_arm", "remove_arm"])
     else:
-        hist += gen.gen_ops(rs, cfg, sh, 1, ["fit"], train_rows=(5, 14))
+        hist += gen.gen_ops(rs, cfg, sh, 1, ["fit"], train_rows=(5, 14) if cfg["lp"].get("l2") != 0.0 else (14, 24))
         if layer == "inside" and rs.integers(2):
             # leave the first arm unobserved: a failure inside training may then hit after that arm was already updated
             first = sh.arms[0]
